@@ -14,6 +14,10 @@ Definition default_config : config :=
   {| streaming := default_streaming; lifetime := default_lifetime; linger := default_linger;
      lifetime_strict := gen_lifetime_strict; linger_strict := gen_linger_strict |}.
 
+(* which answers make _StreamResultIterator.__next__ drop its proxy: generated from its except-clauses *)
+Definition gen_policy : cpolicy :=
+  {| drop_stop := gen_drop_stop; drop_raised := gen_drop_raised; drop_error := gen_drop_error; drop_comm := gen_drop_comm |}.
+
 Definition row := (sid * (option conn * (N * N)))%type.
 Definition snapshot (st : state) : list row :=
   map (fun kv => (fst kv, (owner (snd kv), (created (snd kv), linger_since (snd kv))))) (tbl st).
@@ -25,6 +29,7 @@ Definition cresp_eqb (a b : cresp) : bool :=
   match a, b with
   | COpened x, COpened y | CItem x, CItem y | CRaised x, CRaised y => x =? y
   | CNoStreaming, CNoStreaming | CStop, CStop | CError, CError | CClosedLocal, CClosedLocal | CNone, CNone => true
+  | CCommErr _, CCommErr _ => true      (* the lost answer is a ghost of the model, invisible to the client *)
   | _, _ => false
   end.
 Definition row_eqb (a b : row) : bool :=
@@ -35,7 +40,7 @@ Fixpoint model_steps (cfg : config) (cs : cstate) (ops : list cop) : cstate * li
   match ops with
   | [] => (cs, [])
   | op :: ops' =>
-      let '(cs1, r, _) := cstep cfg cs op in
+      let '(cs1, r, _) := cstep gen_policy cfg cs op in
       let '(cs2, out) := model_steps cfg cs1 ops' in
       (cs2, (r, snapshot (srv cs1)) :: out)
   end.
